@@ -520,6 +520,11 @@ def _run_rand(spec, rec):
 
 def _is_decimal15(x):
     """x is the nearest double of a decimal with <= 15 significant digits"""
+    if x != 0 and abs(math.frexp(x)[0]) == 0.5 and not (1e-7 <= abs(x) <= 1e7):
+        # exact power of two outside the range where every power of two is
+        # itself a <=15-digit decimal: the asymmetric rounding interval could
+        # (in principle) break the 16-digit round trip -> tolerance class
+        return False
     return float(f"{x:.14e}") == x
 
 
